@@ -1,7 +1,7 @@
 (* C11 — property theorems only.  The model (Model/C11_etag.v) is instantiated with the pattern
    parameters REGENERATED from the live webob patterns (Gen/C11_rx.v); Spec/C11_taglist.v says what
    an RFC 7232 entity-tag list is.  Each theorem is closed by [exact] of a lemma of Proofs/C11_etag.v. *)
-From Coq Require Import NArith ZArith List Bool.
+From Coq Require Import NArith ZArith List Bool String.
 Require Import Webob.Lib.Val Webob.Lib.Rx Webob.Gen.C11_rx Webob.Model.C11_etag Webob.Spec.C11_taglist
                Webob.Proofs.C11_etag.
 Import ListNotations.
@@ -80,6 +80,33 @@ Theorem C11_if_range_date : forall (pd : str -> option Z) v d etag_hdr,
   if_range_contains pd (if_range_parse pd (Some v)) etag_hdr None = Some false.
 Proof. exact if_range_date. Qed.
 Print Assumptions C11_if_range_date.
+
+(* the obsolete asctime spelling of HTTP-date (RFC 7231 7.1.1.1: no zone, hence no SP GMT suffix) is a date as
+   well -- exactly the asctime-date shape [is_asctime] = full match of the pattern regenerated from webob *)
+Theorem C11_if_range_asctime : forall (pd : str -> option Z) v d etag_hdr,
+  ends_with_s GMT v = false -> is_asctime v = true -> pd (v ++ GMT) = Some d ->
+  (forall lm l, lm <> [] -> pd lm = Some l ->
+     if_range_contains pd (if_range_parse pd (Some v)) etag_hdr (Some lm) = Some (Z.leb l d)) /\
+  if_range_contains pd (if_range_parse pd (Some v)) etag_hdr None = Some false.
+Proof. exact if_range_asctime. Qed.
+Print Assumptions C11_if_range_asctime.
+
+(* ... and nothing else without the SP GMT suffix is a date, whatever parse_date would read into it *)
+Theorem C11_if_range_not_date : forall (pd : str -> option Z) v,
+  ends_with_s GMT v = false -> is_asctime v = false ->
+  if_range_parse pd (Some v) = IRTag (match v with [] => MAny | _ => matcher_parse true v end).
+Proof. exact if_range_not_date. Qed.
+Print Assumptions C11_if_range_not_date.
+
+(* "Sun Nov  6 08:49:37 1994" has the shape; the IMF-fixdate with the zone cut off
+   "Sun, 06 Nov 1994 08:49:37", lower-case names and a one-space one-digit day have not *)
+Example C11_if_range_asctime_example :
+  let a := H "53756e204e6f762020362030383a34393a33372031393934"%string in
+  ends_with_s GMT a = false /\ is_asctime a = true /\
+  is_asctime (H "53756e2c203036204e6f7620313939342030383a34393a3337"%string) = false /\
+  is_asctime (H "73756e206e6f762020362030383a34393a33372031393934"%string) = false /\
+  is_asctime (H "53756e204e6f7620362030383a34393a33372031393934"%string) = false.
+Proof. vm_compute. repeat split; reflexivity. Qed.
 
 Example C11_if_range_date_example : ends_with_s GMT [49; 32; 71; 77; 84] = true.
 Proof. reflexivity. Qed.
